@@ -92,7 +92,7 @@ def evaluate(case):
         th, op = cards.build(cfg)
         if mode == "stub":
             def evolve(eko_, recipe):
-                calls.append(("evo", recipe.origin, recipe.target, recipe.nf))
+                calls.append(("evo", recipe.origin, recipe.target, (recipe.nf, bool(recipe.cliff))))
                 f = (recipe.origin, recipe.target, recipe.nf)
                 return Operator(_stub_tensor(f), _stub_tensor(f, err=True))
 
@@ -109,7 +109,7 @@ def evaluate(case):
                 return res
         else:
             def evolve(eko_, recipe):
-                calls.append(("evo", recipe.origin, recipe.target, recipe.nf))
+                calls.append(("evo", recipe.origin, recipe.target, (recipe.nf, bool(recipe.cliff))))
                 return saved[0](eko_, recipe)
 
             def match(eko_, recipe):
@@ -129,8 +129,10 @@ def evaluate(case):
         for t in case["targets"]:
             ref = refp.ref_matched_path(walls, origin, (t[0] ** 2, t[1]))
             keys = []
-            for b in ref:
-                k = ("evo", b[1], b[2], b[3]) if b[0] == "seg" else ("match", b[1], b[2], b[3])
+            for ib, b in enumerate(ref):
+                # a segment is a part of its own kind when it is intermediate (it ends on a matching scale and
+                # carries no scale-variation factor) or final (it reaches the target): the header tells them apart
+                k = ("evo", b[1], b[2], (b[3], ib < len(ref) - 1)) if b[0] == "seg" else ("match", b[1], b[2], b[3])
                 expected[k] = True
                 keys.append(k)
             per_target[(t[0] ** 2, t[1])] = keys
@@ -152,7 +154,7 @@ def evaluate(case):
             e.parts_matching.sync()
             nstored = 0
             for h in list(e.parts):
-                stored[("evo", float(h.origin), float(h.target), h.nf)] = e.parts[h]
+                stored[("evo", float(h.origin), float(h.target), (h.nf, bool(h.cliff)))] = e.parts[h]
                 nstored += 1
             for h in list(e.parts_matching):
                 stored[("match", float(h.scale), h.hq, h.inverse)] = e.parts_matching[h]
@@ -246,4 +248,4 @@ def run(ctx):
         f"{'of the 28 targets' if ctx.thorough() else 'of a 12-target reduced alphabet'}) in stub mode; NLO/NNLO probe-mode cards from 4 origins; "
         "non-trivial = path of more than one part or more than one target"
     )
-    ctx.assumptions += ["cliff flag ignored when identifying a part (it is a function of the segment)"]
+    ctx.assumptions += ["a part is identified by its segment and by being intermediate or final (the two differ by the scale-variation factor)"]
